@@ -286,6 +286,132 @@ func c13agilenSizes() []int {
 	return s
 }
 
+// c13stdInfo builds an EncryptionInfo stream with the layout Encrypt writes (deterministic content).
+func c13stdInfo(rng *Rng) []byte {
+	var b []byte
+	u16 := func(v int) { b = append(b, byte(v), byte(v>>8)) }
+	u32 := func(v int) { b = append(b, byte(v), byte(v>>8), byte(v>>16), byte(v>>24)) }
+	u16(3)
+	u16(2)
+	u32(0x24)
+	u32(0xA4)
+	u32(0x24)
+	u32(0)
+	u32(0x660E)
+	u32(0x8004)
+	u32(0x80)
+	u32(0x18)
+	u32(0)
+	u32(0)
+	for _, ch := range "Microsoft Enhanced RSA and AES Cryptographic Provider (Prototype)" {
+		u16(int(ch))
+	}
+	u16(0)
+	u32(0x10)
+	for i := 0; i < 32; i++ {
+		b = append(b, byte(rng.Intn(256)))
+	}
+	u32(0x14)
+	for i := 0; i < 32; i++ {
+		b = append(b, byte(rng.Intn(256)))
+	}
+	return b
+}
+
+// c13sinfo: public Decrypt on a container holding the given EncryptionInfo bytes and a package stream
+// of pkgLen zero bytes: rejected / accepted / panic, vs the model of the guards.
+func c13sinfo(r *Run, info []byte, pkgLen int) {
+	op := fmt.Sprintf("sinfo %s %d", hx(string(info)), pkgLen)
+	r.Stat("op:sinfo")
+	res := "PANIC"
+	if len(info) >= 4 && info[0] == 4 && info[1] == 0 && info[2] == 4 && info[3] == 0 {
+		res = "agile"
+	} else {
+		func() {
+			defer func() { _ = recover() }()
+			doc := xl.VerifC13CfbWrite([]string{"EncryptionInfo", "EncryptedPackage"}, [][]byte{info, make([]byte, pkgLen)})
+			_, err := xl.Decrypt(doc, &xl.Options{Password: "pw"})
+			if err != nil {
+				res = "err"
+			} else {
+				res = "ok"
+			}
+		}()
+	}
+	ln := r.Op(op, res)
+	r.Case(op, res == "ok")
+	r.Stat("sinfo:" + res)
+	if res == "PANIC" {
+		r.Fail("sinfo:panic", fmt.Sprintf("Decrypt panics on a %d-byte EncryptionInfo stream (package stream %d bytes)", len(info), pkgLen), ln, op)
+	}
+}
+
+func c13sinfoCases(r *Run, rng *Rng, thorough bool) {
+	base := c13stdInfo(rng)
+	put32 := func(b []byte, off, v int) []byte {
+		c := append([]byte{}, b...)
+		binary.LittleEndian.PutUint32(c[off:], uint32(v))
+		return c
+	}
+	c13sinfo(r, base, 8+32)
+	// truncations: inside the encrypted verifier hash (the 60..72 table), the verifier, the header
+	for cut := 0; cut <= 90; cut++ {
+		c13sinfo(r, base[:len(base)-cut], 8+16)
+	}
+	for _, n := range []int{0, 1, 3, 4, 8, 11, 12, 13, 43, 44, 45, 175, 176, 177} {
+		c13sinfo(r, base[:n], 8+16)
+	}
+	// RC4 algorithm id: table entry 60
+	rc4 := put32(base, 12+8, 0x6801)
+	for cut := 0; cut <= 40; cut++ {
+		c13sinfo(r, rc4[:len(rc4)-cut], 8+16)
+	}
+	// header size field
+	for _, hs := range []int{0, 4, 31, 32, 33, 0xA3, 0xA4, 0xA5, 0xA4 + 11, 0xA4 + 12, 0xA4 + 13, 236, 237, 1 << 20, 0x7FFFFFFF, 0xFFFFFFFF} {
+		c13sinfo(r, put32(base, 8, hs), 8+16)
+	}
+	// key size field, AES ids
+	for _, ks := range []int{0, 8, 64, 127, 128, 135, 136, 192, 256, 257, 320, 327, 328, 1024, 0xFFFFFFFF} {
+		c13sinfo(r, put32(base, 12+16, ks), 8+16)
+	}
+	for _, id := range []int{0x660D, 0x660E, 0x660F, 0x6610, 0x6611, 0} {
+		c13sinfo(r, put32(base, 12+8, id)[:len(base)-6], 8+16)
+	}
+	// version field
+	for _, v := range [][2]int{{1, 2}, {2, 2}, {3, 2}, {4, 2}, {5, 2}, {3, 3}, {4, 3}, {4, 4}, {2, 3}, {0, 0}, {3, 1}} {
+		c := append([]byte{}, base...)
+		c[0], c[1], c[2], c[3] = byte(v[0]), 0, byte(v[1]), 0
+		c13sinfo(r, c, 8+16)
+	}
+	// package stream length
+	for _, pl := range []int{0, 1, 7, 8, 9, 23, 24, 25, 8 + 4096, 8 + 4097} {
+		c13sinfo(r, base, pl)
+	}
+	n := 30
+	if thorough {
+		n = 600
+	}
+	for i := 0; i < n; i++ {
+		c := append([]byte{}, base...)
+		for k := rng.Range(1, 3); k > 0; k-- {
+			switch rng.Intn(4) {
+			case 0:
+				c = put32(c, 8, rng.Pick2([]int{rng.Range(0, 300), 0xA4, 32}))
+			case 1:
+				c = put32(c, 12+16, rng.Pick2([]int{128, 192, 256, rng.Range(0, 400)}))
+			case 2:
+				c = put32(c, 12+8, rng.Pick2([]int{0x660E, 0x6610, 0x6801, rng.Range(0, 70000)}))
+			default:
+				c = c[:rng.Range(0, len(c))]
+			}
+			if len(c) < 32 {
+				break
+			}
+		}
+		c13sinfo(r, c, rng.Pick2([]int{8, 24, 40, 7, 25}))
+	}
+}
+
 func c13agileSizes(rng *Rng, thorough bool) []int {
 	s := []int{4096, 0, 1, 15, 16, 17, 100, 4079, 4080, 4081, 4088, 4095, 4097, 4111, 4112, 4113, 8175, 8176, 8177, 8191, 8192, 8193,
 		12272, 12287, 12288, 12289, 40944, 40960, 40961}
